@@ -55,6 +55,7 @@ var c05Conds = []c05Cond{
 	{"", nil, rj.S("")},
 	{"", nil, rj.S("a")},
 	{"", nil, rj.Nil()},
+	{"", nil, &rj.Dot{}}, // the context itself: inside a range it is the element, which may sit in an interface{} slot
 }
 
 func (c c05Cond) expr() rj.Expr {
@@ -75,6 +76,8 @@ var c05Rangeables = []c05Rangeable{
 	{"rS1", func() interface{} { return []string{"a"} }, nil},
 	{"rS3", func() interface{} { return []string{"a", "b", "c"} }, nil},
 	{"rI2", func() interface{} { return []interface{}{1, "x"} }, nil},
+	{"rIf", func() interface{} { return []interface{}{0, "", false, 2.5, "a"} }, nil}, // falsy values in interface{} slots
+	{"rMf", func() interface{} { return map[string]interface{}{"k": 0} }, nil},
 	{"rArr", func() interface{} { return [2]int{4, 5} }, nil},
 	{"rPtr", func() interface{} { return &[]string{"p", "q"} }, nil},
 	{"rM0", func() interface{} { return map[string]int{} }, nil},
